@@ -55,6 +55,23 @@ theorem findBin_ge {n : Nat} (h : n ≤ maxBinSize) : n ≤ binSize (findBin n) 
 /-- the largest bin serves exactly up to `s_max_bin_size` -/
 theorem maxBin_is_last : binSizes.getLast? = some maxBinSize := by decide
 
+/-- the generated test of `s_sba_alloc`: a bin serves exactly the sizes up to `s_max_bin_size` — every larger
+size (all the way to SIZE_MAX) goes to the parent; `findBin` is only ever applied to sizes it is specified for -/
+theorem servedByBin_iff (size : Nat) : servedByBin size ↔ size ≤ maxBinSize := by
+  unfold servedByBin; exact Iff.rfl
+
+/-- the generated `aws_mul_size_checked`: the exact product, or an error when it does not fit 64 bits -/
+theorem mul_size_checked_ok {a b : Nat} (h : a * b < SIZE_MOD) : Gen.Math.MathInl.aws_mul_size_checked a b = .ok (a * b) := by
+  rw [SIZE_MOD_eq] at h
+  show (if a * b ≥ 18446744073709551616 then CSem.Res.err 5 else CSem.Res.ok (a * b % 18446744073709551616)) = _
+  rw [if_neg (by omega), Nat.mod_eq_of_lt h]
+
+theorem mul_size_checked_err {a b : Nat} (h : SIZE_MOD ≤ a * b) : ∃ e, Gen.Math.MathInl.aws_mul_size_checked a b = .err e := by
+  rw [SIZE_MOD_eq] at h
+  refine ⟨5, ?_⟩
+  show (if a * b ≥ 18446744073709551616 then CSem.Res.err 5 else CSem.Res.ok (a * b % 18446744073709551616)) = _
+  rw [if_pos h]
+
 /-! ### slot arithmetic (for the five size classes) -/
 
 section
